@@ -939,6 +939,146 @@ Proof.
     rewrite copy_erase by assumption. rewrite <- (deep_copy_same _ W) at 2. apply deep_copy_equal_iff. exact W.
 Qed.
 
+(* ------------------------------------------------------------------ histories *)
+(* Well-formedness is an invariant of every mutator, hence of every history: the theorems
+   above hold for every tree a client can reach, however it was reached. *)
+Lemma in_keys_obj_add {A} (l : list (list byte * A)) k v k' :
+  In k' (keys (obj_add l k v)) <-> k' = k \/ In k' (keys l).
+Proof.
+  induction l as [|[k1 v1] t IH]; cbn; [intuition|].
+  destruct (bytes_eqb k k1) eqn:E; cbn.
+  - apply bytes_eqb_eq in E. subst. intuition.
+  - unfold keys in IH. rewrite IH. intuition.
+Qed.
+
+Lemma obj_add_nodup {A} (l : list (list byte * A)) k v : NoDup (keys l) -> NoDup (keys (obj_add l k v)).
+Proof.
+  induction l as [|[k1 v1] t IH]; cbn; intros H.
+  - constructor; [cbn; tauto|constructor].
+  - inversion H; subst. destruct (bytes_eqb k k1) eqn:E; cbn.
+    + constructor; assumption.
+    + constructor; [|apply IH; assumption]. intros Hin. apply in_keys_obj_add in Hin as [->|Hin].
+      * rewrite bytes_eqb_refl in E. discriminate.
+      * contradiction.
+Qed.
+
+Lemma obj_add_forall {A} (P : A -> Prop) (l : list (list byte * A)) k v :
+  Forall (fun kv => P (snd kv)) l -> P v -> Forall (fun kv => P (snd kv)) (obj_add l k v).
+Proof.
+  induction l as [|[k1 v1] t IH]; cbn; intros H Hv.
+  - constructor; [exact Hv|constructor].
+  - inversion H; subst. destruct (bytes_eqb k k1); constructor; auto.
+Qed.
+
+Lemma in_keys_obj_del {A} (l : list (list byte * A)) k k' : In k' (keys (obj_del l k)) -> In k' (keys l).
+Proof.
+  induction l as [|[k1 v1] t IH]; cbn; [tauto|].
+  destruct (bytes_eqb k k1); cbn; [auto|]. intros [H|H]; auto.
+Qed.
+
+Lemma obj_del_nodup {A} (l : list (list byte * A)) k : NoDup (keys l) -> NoDup (keys (obj_del l k)).
+Proof.
+  induction l as [|[k1 v1] t IH]; cbn; intros H; [constructor|].
+  inversion H; subst. destruct (bytes_eqb k k1); cbn; [assumption|].
+  constructor; [|apply IH; assumption]. intros Hin. apply in_keys_obj_del in Hin. contradiction.
+Qed.
+
+Lemma obj_del_forall {A} (P : list byte * A -> Prop) (l : list (list byte * A)) k :
+  Forall P l -> Forall P (obj_del l k).
+Proof.
+  induction l as [|[k1 v1] t IH]; cbn; intros H; [constructor|].
+  inversion H; subst. destruct (bytes_eqb k k1); [assumption|constructor; auto].
+Qed.
+
+Lemma list_set_forall {A} (P : A -> Prop) l i x : Forall P l -> P x -> Forall P (list_set l i x).
+Proof.
+  revert i. induction l as [|y t IH]; intros i H Hx; cbn; [constructor|].
+  inversion H; subst. destruct i; constructor; auto.
+Qed.
+
+Lemma firstn_forall {A} (P : A -> Prop) n l : Forall P l -> Forall P (firstn n l).
+Proof.
+  revert l. induction n; intros l H; cbn; [constructor|]. destruct l; [constructor|]. inversion H; subst. constructor; auto.
+Qed.
+
+Lemma skipn_forall {A} (P : A -> Prop) n l : Forall P l -> Forall P (skipn n l).
+Proof.
+  revert l. induction n; intros l H; cbn; [assumption|]. destruct l; [constructor|]. inversion H; subst. auto.
+Qed.
+
+Lemma repeat_forall {A} (P : A -> Prop) x n : P x -> Forall P (repeat x n).
+Proof. intros H. induction n; cbn; constructor; auto. Qed.
+
+Lemma apply_mut_wf m v v' : mutop_wf m -> jv_wf v -> apply_mut m v = Some v' -> jv_wf v'.
+Proof.
+  intros Hm Hv. destruct m, v; cbn; try discriminate; intros E.
+  - inversion E; subst. inversion Hv; subst. constructor. apply Forall_app. split; [assumption|]. constructor; [exact Hm|constructor].
+  - inversion E; subst. inversion Hv; subst. constructor; [apply obj_add_nodup; assumption|apply obj_add_forall; assumption].
+  - inversion E; subst. inversion Hv; subst. constructor; [apply obj_del_nodup; assumption|apply obj_del_forall; assumption].
+  - inversion E; subst. constructor. exact Hm.
+  - inversion E; subst. constructor. exact Hm.
+  - inversion E; subst. constructor. exact Hm.
+  - inversion E; subst. constructor. exact Hm.
+  - inversion E; subst. constructor.
+  - inversion E; subst. constructor.
+  - inversion E; subst. constructor.
+  - inversion Hv; subst. destruct (i <? 0); [discriminate|]. destruct (i <? zlen l); inversion E; subst; constructor.
+    + apply list_set_forall; assumption.
+    + apply Forall_app. split; [assumption|]. apply Forall_app. split.
+      * unfold zrepeat. apply repeat_forall. constructor.
+      * constructor; [exact Hm|constructor].
+  - inversion Hv; subst. destruct ((i <? 0) || (c <? 0) || (i >=? zlen l) || (i + c >? zlen l)); [discriminate|].
+    inversion E; subst. constructor. apply Forall_app. split.
+    + unfold zfirstn. apply firstn_forall. assumption.
+    + unfold zskipn. apply skipn_forall. assumption.
+Qed.
+
+Lemma mutate_at_wf p m : mutop_wf m -> forall v v', jv_wf v -> mutate_at p m v = Some v' -> jv_wf v'.
+Proof.
+  intros Hm. induction p as [|[i|k] p IH]; intros v v' Hv; cbn.
+  - apply apply_mut_wf; assumption.
+  - destruct v as [| | | | | |l|]; try discriminate.
+    destruct (znth l i) as [c|] eqn:Ec; [|discriminate].
+    destruct (mutate_at p m c) as [c'|] eqn:Em; [|discriminate]. intros E. inversion E; subst.
+    assert (Hc : jv_wf c).
+    { unfold znth in Ec. destruct (i <? 0); [discriminate|]. apply nth_error_In in Ec. exact (wf_arr_in _ _ Hv Ec). }
+    inversion Hv; subst. constructor. apply list_set_forall; [assumption|]. exact (IH c c' Hc Em).
+  - destruct v as [| | | | | | |l]; try discriminate.
+    destruct (assoc k l) as [c|] eqn:Ec; [|discriminate].
+    destruct (mutate_at p m c) as [c'|] eqn:Em; [|discriminate]. intros E. inversion E; subst.
+    assert (Hc : jv_wf c) by (apply assoc_in in Ec; exact (wf_obj_in _ _ _ Hv Ec)).
+    inversion Hv; subst. constructor; [apply obj_add_nodup; assumption|]. apply obj_add_forall; [assumption|].
+    exact (IH c c' Hc Em).
+Qed.
+
+Theorem run_history_wf h : Forall (fun pm => mutop_wf (snd pm)) h ->
+  forall v, jv_wf v -> jv_wf (fst (run_history h v)).
+Proof.
+  induction h as [|[p m] t IH]; intros H v Hv; cbn; [assumption|].
+  inversion H; subst. cbn in H2.
+  destruct (mutate_at p m v) as [v'|] eqn:E.
+  - specialize (IH H3 v' (mutate_at_wf p m H2 v v' Hv E)). destruct (run_history t v'). exact IH.
+  - specialize (IH H3 v Hv). destruct (run_history t v). exact IH.
+Qed.
+
+(* equality after histories depends on the reached values only *)
+Theorem history_equal_iff_denote ha hb a b :
+  Forall (fun pm => mutop_wf (snd pm)) ha -> Forall (fun pm => mutop_wf (snd pm)) hb -> jv_wf a -> jv_wf b ->
+  let a' := fst (run_history ha a) in
+  let b' := fst (run_history hb b) in
+  (jv_equal a' b' = true <-> nan_free a' = true /\ nan_free b' = true /\ denote a' = denote b') /\
+  jv_equal a' b' = jv_equal b' a' /\
+  deep_copy a' = a' /\ jv_equal a' (deep_copy a') = nan_free a'.
+Proof.
+  intros Ha Hb Wa Wb a' b'.
+  assert (Wa' : jv_wf a') by (apply run_history_wf; assumption).
+  assert (Wb' : jv_wf b') by (apply run_history_wf; assumption).
+  split; [apply equal_iff_denote_nan; assumption|].
+  split; [apply equal_sym; assumption|]. split.
+  - apply deep_copy_same; assumption.
+  - apply deep_copy_equal_iff; assumption.
+Qed.
+
 (* ------------------------------------------------------------------ witnesses (non-vacuity) *)
 Definition ex_nan : Z := 9221120237041090560.          (* 0x7ff8000000000000 *)
 Definition ex_a : jv :=
@@ -1013,3 +1153,15 @@ Example ex_mutate :
   mutate_at [SKey [98]; SIdx 2] (MSetStr [120]) ex_a
   = Some (JObj [([97], JInt 9223372036854775807); ([98], JArr [JNull; JDouble 0 (Some [48;46;48]); JStr [120]]); ([], JObj [])]).
 Proof. reflexivity. Qed.
+
+Example ex_history :
+  let h := [([SKey [98]; SIdx 2], MSetStr [1;2;3;4;5;6;7;8;9;10;11;12;13;14;15;16;17;18;19;20;21;22;23;24;25;26;27;28;29;30;31;32;33]);
+            ([SKey [98]; SIdx 2], MSetStr [0;1]);
+            ([SKey [97]], MSetUint 9223372036854775807);
+            ([], MPut [122] JNull); ([], MDel [122]);
+            ([SKey [98]], MArrPut 5 (JInt 1)); ([SKey [98]], MArrDel 3 3); ([SKey [98]], MArrDel 7 1)] in
+  run_history h ex_a
+  = (JObj [([97], JUint 9223372036854775807); ([98], JArr [JNull; JDouble 0 (Some [48;46;48]); JStr [0;1]]); ([], JObj [])],
+     [true; true; true; true; true; true; true; false]) /\
+  jv_equal (fst (run_history h ex_a)) ex_b = true.
+Proof. vm_compute. split; reflexivity. Qed.
